@@ -4,6 +4,7 @@ package xtime
 import (
 	"context"
 	"fmt"
+	"math"
 	"math/rand"
 	"sync"
 	"time"
@@ -94,7 +95,17 @@ func (t *JitterTicker) schedule() {
 	next := t.d
 	if t.jitter > 0 {
 		// rand.Int63n panics for n <= 0, and jitter == 0 is a documented, valid argument.
-		next += time.Duration(rand.Int63n(int64(t.jitter*2))) - (t.jitter)
+		//
+		// Uniform in [-jitter, jitter), drawn as a sign and a magnitude: jitter*2 does not fit a Duration
+		// for a jitter above half its range, and neither does d plus the offset for a d near its end.
+		off := time.Duration(rand.Int63n(int64(t.jitter)))
+		if rand.Intn(2) == 0 {
+			next -= off + 1
+		} else if next > math.MaxInt64-off {
+			next = math.MaxInt64
+		} else {
+			next += off
+		}
 	}
 
 	// To prevent a latent goroutine already spawned but not yet running the below function from
